@@ -356,18 +356,15 @@ fn oracle(case: &Case, o: &Obs, stats: &mut Vec<&'static str>) -> Result<(), Str
     // (d) — scores are f32: where the f32 format cannot tell adjacent table cells apart
     // ((|M·offset|·scale + len) >= 2^22, i.e. an error of 2^-23 relative reaches half a cell) the
     // clause is not claimed; such matrices are still run and a violation is counted (finding).
-    // (LMV_C11_STRICT_F32=1 claims the clause everywhere: used to reproduce the finding as a failure)
-    let strict = std::env::var("LMV_C11_STRICT_F32").map(|v| v == "1").unwrap_or(false);
-    let resolvable = strict || (o.u0.abs() as f64) * (o.sfac as f64) + (o.sf.len() as f64) < 4194304.0;
+    let resolvable = (o.u0.abs() as f64) * (o.sfac as f64) + (o.sf.len() as f64) < 4194304.0;
     if !resolvable {
-        stats.push("oracle/f32-cannot-resolve-grid:(d)-not-claimed");
-        if o.sc.iter().any(|(p, _, back)| *p > 0.0 && !(back <= p)) {
-            stats.push("finding/f32-unscale-roundtrip-violated");
-        }
+        stats.push("oracle/f32-cannot-resolve-grid");
     }
     for (p, s, back) in &o.sc {
-        if resolvable && *p > 0.0 && !(back <= p) {
-            return Err(format!("pvalue(score(p)) > p: p = {:e} ({}), score = {:e} ({}), pvalue(score) = {:e}", p, p.to_bits(), s, s.to_bits(), back));
+        if *p > 0.0 && !(back <= p) {
+            // the signature of the recorded finding C11-f32-unscale is the regime, decided here
+            let regime = if resolvable { "" } else { "f32-unresolvable-grid (|M*offset|*scale+len >= 2^22): " };
+            return Err(format!("{}pvalue(score(p)) > p: p = {:e} ({}), score = {:e} ({}), pvalue(score) = {:e}", regime, p, p.to_bits(), s, s.to_bits(), back));
         }
     }
     // (b)
